@@ -124,6 +124,13 @@ pub enum Op {
     Get(u8, Vec<u8>),
     Scan(u8, Vec<u8>),
     Reopen,
+    /// many operations in ONE serialization buffer: (kind 0 put / 1 del /
+    /// 2 ins / 3 rem, slot, key, value or element); added after seeded
+    /// change C11-5
+    Bulk(u32, Vec<(u8, u8, Vec<u8>, Vec<u8>)>),
+    /// put of a value of `len` bytes filled with `fill` (batches of several
+    /// MiB; seeded change C11-3): (batch, slot, key, fill, len)
+    PutBig(u32, u8, Vec<u8>, u8, u32),
 }
 
 #[derive(Clone, Debug, Serialize, Deserialize)]
@@ -132,6 +139,9 @@ pub struct Scenario {
     pub backend: String,
     pub ops: Vec<Op>,
 }
+
+/// big batches are slow: rarely in the quick tier
+fn thorough_or_big(r: &mut Rng, thorough: bool) -> bool { r.chance(1, if thorough { 60 } else { 200 }) }
 
 fn generate(seed: u64, thorough: bool) -> Scenario {
     let mut r = Rng::new(seed).split(label("kv-workload"));
@@ -142,8 +152,59 @@ fn generate(seed: u64, thorough: bool) -> Scenario {
     let mut ops = Vec::new();
     let mut open: Vec<u32> = Vec::new();
     let mut next = 0u32;
+    // a tenth of the runs starts with the history of seeded change C11-4: a
+    // member written, made durable, written again, deleted, made durable
+    if r.chance(1, 10) {
+        let (slot, k, e) = (r.below(u64::from(SET_SLOTS)) as u8, r.pick(&keys).clone(), pool(&mut r));
+        for step in 0..3u32 {
+            ops.push(Op::Begin(next));
+            if step < 2 {
+                ops.push(Op::Ins(next, slot, k.clone(), e.clone(), r.chance(1, 2)));
+            } else {
+                ops.push(Op::Rem(next, slot, k.clone(), e.clone(), r.chance(1, 2)));
+            }
+            ops.push(Op::Commit(next));
+            next += 1;
+            if step != 1 || r.chance(1, 2) {
+                ops.push(Op::Reopen);
+            }
+            ops.push(Op::Scan(slot, k.clone()));
+        }
+        ops.push(Op::Reopen);
+        ops.push(Op::Scan(slot, k));
+    }
     for _ in 0..n {
         let key = r.pick(&keys).clone();
+        // one buffer with 21-40 operations over a few columns and keys
+        if !open.is_empty() && r.chance(1, 25) {
+            let b = *r.pick(&open);
+            let m = r.range(21, 40);
+            let items = (0..m)
+                .map(|_| {
+                    let kind = r.below(4) as u8;
+                    let slot = if kind < 2 { r.below(u64::from(WIDE_SLOTS)) as u8 } else { r.below(u64::from(SET_SLOTS)) as u8 };
+                    let mut v = if kind < 2 { pool(&mut r) } else { r.pick(&keys).clone() };
+                    if kind == 0 {
+                        v.push(r.below(250) as u8);
+                    }
+                    (kind, slot, r.pick(&keys).clone(), v)
+                })
+                .collect();
+            ops.push(Op::Bulk(b, items));
+            continue;
+        }
+        // a batch of more than 4 MiB, then a read before anything is committed
+        if thorough_or_big(&mut r, thorough) && !open.is_empty() {
+            let b = *r.pick(&open);
+            let slot = *r.pick(&[0u8, 2, 3, 5]);
+            for i in 0..5u8 {
+                ops.push(Op::PutBig(b, slot, r.pick(&keys).clone(), i + 1, 1_100_000));
+            }
+            for k in &keys {
+                ops.push(Op::Get(slot, k.clone()));
+            }
+            continue;
+        }
         match r.below(24) {
             0..=2 if open.len() < 3 => {
                 ops.push(Op::Begin(next));
@@ -378,6 +439,37 @@ fn run_on<Db: KvDatabase>(open: &dyn Fn() -> Db, sc: &Scenario) -> Outcome {
                     set_rem(&mut BatchSink(wb), *slot, k, e);
                 }
                 p.sets.push(((*slot, norm_set_key(*slot, k), norm_elem(*slot, e)), false));
+            }
+            Op::Bulk(b, items) => {
+                let Some((wb, p)) = batches.get_mut(b) else { continue };
+                let mut buf = db.as_ref().unwrap().serialization_buffer();
+                for (kind, slot, k, v) in items {
+                    match kind {
+                        0 => {
+                            wide_put(&mut BufSink(&mut buf), *slot, k, v);
+                            p.wide.push(((*slot, norm_wide(*slot, k)), Some(norm_val(*slot, v))));
+                        }
+                        1 => {
+                            wide_del(&mut BufSink(&mut buf), *slot, k);
+                            p.wide.push(((*slot, norm_wide(*slot, k)), None));
+                        }
+                        2 => {
+                            set_ins(&mut BufSink(&mut buf), *slot, k, v);
+                            p.sets.push(((*slot, norm_set_key(*slot, k), norm_elem(*slot, v)), true));
+                        }
+                        _ => {
+                            set_rem(&mut BufSink(&mut buf), *slot, k, v);
+                            p.sets.push(((*slot, norm_set_key(*slot, k), norm_elem(*slot, v)), false));
+                        }
+                    }
+                }
+                wb.consume_serialization_buffer(buf);
+            }
+            Op::PutBig(b, slot, k, fill, len) => {
+                let Some((wb, p)) = batches.get_mut(b) else { continue };
+                let v = vec![*fill; *len as usize];
+                wide_put(&mut BatchSink(wb), *slot, k, &v);
+                p.wide.push(((*slot, norm_wide(*slot, k)), Some(norm_val(*slot, &v))));
             }
             Op::Commit(b) => {
                 let Some((wb, p)) = batches.remove(b) else { continue };
